@@ -98,7 +98,10 @@ def balanced(html, repl=None, lenient=False):
 
 def squeeze(html):
     """HTML equal up to white space between tags and at the ends"""
-    return re.sub(r'>\s+<', '><', html).strip()
+    h = re.sub(r'>\s+<', '><', html)
+    h = re.sub(r'\n+<', '<', h)
+    h = re.sub(r'>\n+', '>', h)
+    return re.sub(r'\n+', '\n', h).strip()
 
 
 def ids_of(html):
